@@ -55,10 +55,11 @@ type c12fault struct {
 }
 
 type c12world struct {
-	seed   uint64
-	faults []c12fault
-	calls  []int // kind per call, in order
-	fired  map[string]int
+	extraNames []string // names taken from the tree's literals for this case
+	seed       uint64
+	faults     []c12fault
+	calls      []int // kind per call, in order
+	fired      map[string]int
 }
 
 func (w *c12world) next(kind int) string {
@@ -142,6 +143,9 @@ func (f *c12file) SourceLine(addr uint64) ([]plugin.Frame, error) {
 	for i := range frames {
 		hh := f.w.h(addr + uint64(i)*977)
 		frames[i] = plugin.Frame{Func: c12Names[hh%uint64(len(c12Names))], File: fmt.Sprintf("/src/f%d.cc", hh%5), Line: int(1 + hh%90), Column: int(hh % 4), StartLine: int(1 + hh%50)}
+		if len(f.w.extraNames) > 0 && hh%5 == 0 {
+			frames[i].Func = f.w.extraNames[(hh/5)%uint64(len(f.w.extraNames))]
+		}
 		switch fk {
 		case "empty-names":
 			frames[i].Func, frames[i].File = "", ""
@@ -216,10 +220,11 @@ func (w *c12world) RoundTrip(req *http.Request) (*http.Response, error) {
 // ---- profile generation ----
 
 type c12case struct {
-	build   func() *profile.Profile
-	mode    string
-	sources plugin.MappingSources
-	desc    string
+	extraNames []string
+	build      func() *profile.Profile
+	mode       string
+	sources    plugin.MappingSources
+	desc       string
 }
 
 func genC12Case(t *simrt.Tape) *c12case {
@@ -338,6 +343,9 @@ func genC12Case(t *simrt.Tape) *c12case {
 	}
 	modes := []string{"", "local", "fastlocal", "remote", "force", "local:force", "remote:force", "demangle=full", "demangle=none", "demangle=templates", "demangle=default", "none", "local:demangle=templates", "remote:demangle=full", "bogus", "fastlocal:force:demangle=none"}
 	c := &c12case{build: build, mode: modes[t.Choose(K, len(modes))], sources: plugin.MappingSources{}}
+	for i, n := 0, t.Choose(K, 4); i < n; i++ {
+		c.extraNames = append(c.extraNames, dictStr(t, "main"))
+	}
 	srcs := []string{"http://host1/debug/pprof/profile", "http://host2/pprof/heap", "http://host3/x/y", "not a url", "http://down/debug/pprof/heap"}
 	for _, m := range maps {
 		if !t.Bool(K, 60) {
@@ -478,7 +486,7 @@ func c12Run(x *xctx, c *c12case, faults []c12fault) (*c12world, *violation) {
 		panic("generator produced an invalid profile: " + err.Error())
 	}
 	snap := takeC12Snap(p, force)
-	w := &c12world{seed: x.seed, faults: faults, fired: map[string]int{}}
+	w := &c12world{seed: x.seed, faults: faults, fired: map[string]int{}, extraNames: c.extraNames}
 	ui := &simUI{}
 	sym := &symbolizer.Symbolizer{Obj: w, UI: ui, Transport: w}
 	var err error
